@@ -142,3 +142,169 @@ Proof.
   replace (str_eqb (F"instimage") (F"mainimage")) with false by reflexivity. cbv iota.
   split; [exact H1|exact H2].
 Qed.
+
+(* ---- integers survive the text: int(str(z)) = z *)
+From PM Require Import Proofs.StrDec.
+From Coq Require Import Lia.
+
+Definition ws (c : chr) : bool := N.eqb c 32 || N.eqb c 10 || N.eqb c 9 || N.eqb c 13.
+
+Lemma digit_not_ws c : is_digit c = true -> ws c = false.
+Proof.
+  unfold is_digit, ws. intros H. apply andb_true_iff in H. destruct H as [H1 H2]. apply N.leb_le in H1, H2.
+  destruct (N.eqb_spec c 32), (N.eqb_spec c 10), (N.eqb_spec c 9), (N.eqb_spec c 13); try lia; try reflexivity.
+Qed.
+
+Lemma strip_right_digits s : forallb is_digit s = true -> strip_right ws s = s.
+Proof.
+  induction s as [|x s IH]; cbn [forallb strip_right]; [reflexivity|]. intros H. apply andb_true_iff in H. destruct H as [Hx Hs].
+  rewrite (IH Hs). destruct s; [rewrite (digit_not_ws _ Hx); reflexivity|reflexivity].
+Qed.
+
+Lemma strip_ws_digits s : forallb is_digit s = true -> strip_ws s = s.
+Proof.
+  intros H. unfold strip_ws. change (fun c => N.eqb c 32 || N.eqb c 10 || N.eqb c 9 || N.eqb c 13) with ws.
+  destruct s as [|x s]; [reflexivity|]. cbn [strip_left]. cbn [forallb] in H. apply andb_true_iff in H.
+  rewrite (digit_not_ws _ (proj1 H)). apply strip_right_digits. cbn [forallb]. apply andb_true_iff. exact H.
+Qed.
+
+Lemma py_int_digits c ds :
+  forallb is_digit (c :: ds) = true -> py_int (PStr (c :: ds)) = Ok (PInt (Z.of_N (parse_dec (c :: ds)))).
+Proof.
+  intros Hd. cbn [py_int]. rewrite (strip_ws_digits _ Hd).
+  assert (Hrange : c = 48 \/ c = 49 \/ c = 50 \/ c = 51 \/ c = 52 \/ c = 53 \/ c = 54 \/ c = 55 \/ c = 56 \/ c = 57).
+  { cbn [forallb] in Hd. apply andb_true_iff in Hd. destruct Hd as [H0 _]. unfold is_digit in H0. apply andb_true_iff in H0.
+    destruct H0 as [H1 H2]. apply N.leb_le in H1, H2. lia. }
+  remember (forallb is_digit) as FD eqn:EF. remember parse_dec as PD eqn:EP.
+  repeat (destruct Hrange as [E|Hrange]; [subst c; cbv iota; rewrite Hd; reflexivity|]).
+  subst c. cbv iota. rewrite Hd. reflexivity.
+Qed.
+
+Lemma py_int_show_Z z : py_int (PStr (show_Z z)) = Ok (PInt z).
+Proof.
+  destruct z as [|p|p]; cbn [show_Z].
+  - reflexivity.
+  - pose proof (show_dec_digits (Npos p)) as Hd. pose proof (show_dec_nonempty (Npos p)) as Hn.
+    destruct (show_dec (Npos p)) as [|c ds] eqn:E; [congruence|].
+    rewrite (py_int_digits c ds Hd), <- E, parse_show_dec. reflexivity.
+  - pose proof (show_dec_digits (Npos p)) as Hd. pose proof (show_dec_nonempty (Npos p)) as Hn. cbn [py_int].
+    assert (Es : strip_ws (45 :: show_dec (Npos p)) = 45 :: show_dec (Npos p)).
+    { unfold strip_ws. change (fun c => N.eqb c 32 || N.eqb c 10 || N.eqb c 9 || N.eqb c 13) with ws. cbn [strip_left].
+      change (ws 45) with false. cbv iota. cbn [strip_right]. rewrite (strip_right_digits _ Hd).
+      destruct (show_dec (Npos p)); [congruence|reflexivity]. }
+    rewrite Es. rewrite Hd. destruct (show_dec (Npos p)) eqn:E; [congruence|]. cbn [negb andb]. rewrite <- E, parse_show_dec. reflexivity.
+Qed.
+
+Lemma digits_no_dot s : forallb is_digit s = true -> ~ In c_dot s.
+Proof.
+  induction s as [|x s IH]; cbn [forallb]; [intros _ []|]. intros H. apply andb_true_iff in H. destruct H as [Hx Hs].
+  intros [E|Hin]; [|exact (IH Hs Hin)]. subst x. vm_compute in Hx. discriminate.
+Qed.
+
+Lemma show_Z_no_dot z : ~ In c_dot (show_Z z).
+Proof.
+  destruct z as [|p|p]; cbn [show_Z].
+  - intros [E|[]]. discriminate E.
+  - apply digits_no_dot. apply show_dec_digits.
+  - intros [E|Hin]; [discriminate E|]. exact (digits_no_dot _ (show_dec_digits _) Hin).
+Qed.
+
+Lemma strip_ws_show_Z z : strip_ws (show_Z z) = show_Z z.
+Proof.
+  destruct z as [|p|p]; cbn [show_Z].
+  - reflexivity.
+  - apply strip_ws_digits. apply show_dec_digits.
+  - pose proof (show_dec_digits (Npos p)) as Hd. pose proof (show_dec_nonempty (Npos p)) as Hn.
+    unfold strip_ws. change (fun c => N.eqb c 32 || N.eqb c 10 || N.eqb c 9 || N.eqb c 13) with ws. cbn [strip_left].
+    change (ws 45) with false. cbv iota. cbn [strip_right]. rewrite (strip_right_digits _ Hd).
+    destruct (show_dec (Npos p)); [congruence|reflexivity].
+Qed.
+
+(* an integer timestamp survives the text of [tree] build_timestamp exactly, whatever its size *)
+Lemma float_text_show_Z z : float_text_to_int (show_Z z) = Ok (PInt z).
+Proof.
+  unfold float_text_to_int. rewrite strip_ws_show_Z, (split_first_none c_dot (show_Z z) (show_Z_no_dot z)). apply py_int_show_Z.
+Qed.
+
+Theorem integer_timestamp_read_back x mv t x' z :
+  ser_ti x mv = Ok t -> deser_ti t = Ok x' -> getf (ti_tree x) (F"build_timestamp") = PInt z ->
+  getf (ti_tree x') (F"build_timestamp") = PInt z.
+Proof.
+  intros Hw Hr Hz. destruct (release_and_tree_read_back x mv t x' Hw Hr) as (_ & _ & _ & _ & _ & _ & ts_s & Hs & Hf).
+  rewrite Hz in Hs. cbn [py_str_num] in Hs. injection Hs as <-. rewrite float_text_show_Z in Hf. injection Hf as Hf. symmetry. exact Hf.
+Qed.
+
+(* ---- [media] *)
+Theorem media_read_back x mv t x' :
+  ser_ti x mv = Ok t -> deser_ti t = Ok x' ->
+  let d := getf (ti_media x) (F"discnum") in
+  let n := getf (ti_media x) (F"totaldiscs") in
+  if negb (truthy d) && negb (truthy n)
+  then ti_media x' = [(F"discnum", PNone); (F"totaldiscs", PNone)]
+  else exists zd zn, py_int d = Ok (PInt zd) /\ py_int n = Ok (PInt zn) /\
+                     ti_media x' = [(F"discnum", PInt zd); (F"totaldiscs", PInt zn)].
+Proof.
+  intros Hw Hr. cbv zeta. set (d := getf (ti_media x) (F"discnum")). set (n := getf (ti_media x) (F"totaldiscs")).
+  unfold ser_ti in Hw.
+  inv_bind Hw as u0 G0. inv_bind Hw as u1 G1. inv_bind Hw as p0 Gp0. inv_bind Hw as p1 Gp1. cbv zeta in Hw.
+  inv_bind Hw as u2 G2. inv_bind Hw as p2 Gp2. inv_bind Hw as p3 Gp3. inv_bind Hw as p4 Gp4. inv_bind Hw as p5 Gp5.
+  inv_bind Hw as u3 G3. inv_bind Hw as p6 Gp6. inv_bind Hw as ts_s Gts. inv_bind Hw as p7 Gp7. inv_bind Hw as u4 G4. inv_bind Hw as p8 Gp8.
+  inv_bind Hw as p9 G9. inv_bind Hw as u5 Gc. inv_bind Hw as p10 G10. inv_bind Hw as p11 G11.
+  inv_bind Hw as p12 G12. inv_bind Hw as p13 G13.
+  set (M := F"media") in *. set (P := not_sec M).
+  assert (Hp8 : only_in P [] p8).
+  { assert (Ph : P (F"header")) by (intros E; discriminate E). assert (Pr : P (F"release")) by (intros E; discriminate E).
+    assert (Pb : P (F"base_product")) by (intros E; discriminate E). assert (Pt : P (F"tree")) by (intros E; discriminate E).
+    apply (only_in_trans P [] p0); [exact (add_section_only P _ _ _ Gp0 Ph)|].
+    apply (only_in_trans P p0 p1); [exact (sets_only P _ _ _ _ Gp1 Ph)|].
+    apply (only_in_trans P p1 p2); [exact (add_section_only P _ _ _ Gp2 Pr)|].
+    apply (only_in_trans P p2 p3); [exact (sets_only P _ _ _ _ Gp3 Pr)|].
+    apply (only_in_trans P p3 p4).
+    { destruct (truthy (getf (ti_release x) (F"is_layered"))); [exact (ini_set_only P _ _ _ _ _ Gp4 Pr)|injection Gp4 as <-; apply only_in_refl]. }
+    apply (only_in_trans P p4 p5).
+    { destruct (truthy (getf (ti_release x) (F"is_layered"))); [|injection Gp5 as <-; apply only_in_refl].
+      inv_bind Gp5 as u6 G6. inv_bind Gp5 as q Gq.
+      exact (only_in_trans P p4 q p5 (add_section_only P _ _ _ Gq Pb) (sets_only P _ _ _ _ Gp5 Pb)). }
+    apply (only_in_trans P p5 p6); [exact (add_section_only P _ _ _ Gp6 Pt)|].
+    apply (only_in_trans P p6 p7); [exact (sets_only P _ _ _ _ Gp7 Pt)|].
+    exact (ini_set_only P _ _ _ _ _ Gp8 Pt). }
+  assert (Hp11 : only_in P p8 p11).
+  { apply (before_stage2_only x p8 p11 M eq_refl eq_refl ltac:(intros E; discriminate E) eq_refl p9 p10 G9 G10 G11). }
+  assert (Hp12 : only_in P p11 p12).
+  { assert (Ps : P (F"stage2")) by (intros E; discriminate E).
+    destruct (negb (truthy (getf (ti_stage2 x) (F"mainimage"))) && negb (truthy (getf (ti_stage2 x) (F"instimage"))));
+      [injection G12 as <-; apply only_in_refl|].
+    inv_bind G12 as u8 Gv. inv_bind G12 as q Gq. inv_bind G12 as q1 Gq1.
+    apply (only_in_trans P p11 q); [exact (add_section_only P _ _ _ Gq Ps)|].
+    apply (only_in_trans P q q1).
+    - destruct (truthy (getf (ti_stage2 x) (F"mainimage"))); [exact (ini_set_only P _ _ _ _ _ Gq1 Ps)|injection Gq1 as <-; apply only_in_refl].
+    - destruct (truthy (getf (ti_stage2 x) (F"instimage"))); [exact (ini_set_only P _ _ _ _ _ G12 Ps)|injection G12 as <-; apply only_in_refl]. }
+  assert (A12 : assoc M p12 = None).
+  { apply (assoc_nil_only P); [exact (only_in_trans P _ _ _ (only_in_trans P _ _ _ Hp8 Hp11) Hp12)|]. intros E. apply E. reflexivity. }
+  assert (After : assoc M t = assoc M p13).
+  { apply (ser_general_only _ _ _ _ Hw M). intros E. discriminate E. }
+  (* the reader *)
+  unfold deser_ti in Hr.
+  repeat (apply bind_ok in Hr; let y := fresh "y" in let G := fresh "G" in destruct Hr as (y & G & Hr); cbv zeta in Hr).
+  injection Hr as <-. cbn [ti_media].
+  match goal with Gm : (if has_section t (F"media") then _ else _) = Ok ?md |- _ => rename Gm into Gmd end.
+  fold M in Gmd. fold d n in G13.
+  destruct (negb (truthy d) && negb (truthy n)).
+  - injection G13 as <-. unfold has_section in Gmd. rewrite After, A12 in Gmd. injection Gmd as <-. reflexivity.
+  - inv_bind G13 as u9 Gv3. inv_bind G13 as q Gq. inv_bind G13 as dn Gd. inv_bind G13 as dn_s Gds. inv_bind G13 as td Gt. inv_bind G13 as td_s Gtds.
+    assert (Hnd : NoDup (map fst [(F"discnum", PStr dn_s); (F"totaldiscs", PStr td_s)])) by (cbn [map fst]; repeat constructor; cbv; intuition discriminate).
+    destruct (sets_get _ _ _ _ G13 Hnd) as [S _].
+    destruct (S (F"discnum") _ ltac:(cbn; tauto)) as (a & Ha & Ga). injection Ha as <-.
+    destruct (S (F"totaldiscs") _ ltac:(cbn; tauto)) as (b & Hb & Gb). injection Hb as <-.
+    assert (Gt1 : forall o, ini_get t M o = ini_get p13 M o) by (intros o; apply ini_get_assoc; exact After).
+    rewrite (proj2 (get_has_option _ _ _ _ (eq_trans (Gt1 _) Ga))) in Gmd.
+    rewrite !Gt1, Ga, Gb in Gmd. cbn [bind] in Gmd.
+    assert (Hdz : exists zd, dn = PInt zd) by (unfold py_int in Gd; destruct d; try discriminate; try (injection Gd as <-; eexists; reflexivity);
+                                              repeat match type of Gd with context [match ?e with _ => _ end] => destruct e end; try discriminate; injection Gd as <-; eexists; reflexivity).
+    assert (Htz : exists zn, td = PInt zn) by (unfold py_int in Gt; destruct n; try discriminate; try (injection Gt as <-; eexists; reflexivity);
+                                              repeat match type of Gt with context [match ?e with _ => _ end] => destruct e end; try discriminate; injection Gt as <-; eexists; reflexivity).
+    destruct Hdz as (zd & ->). destruct Htz as (zn & ->).
+    cbn [py_str_num] in Gds, Gtds. injection Gds as <-. injection Gtds as <-.
+    rewrite !py_int_show_Z in Gmd. cbn [bind] in Gmd. injection Gmd as <-.
+    exists zd, zn. split; [exact Gd|]. split; [exact Gt|reflexivity].
+Qed.
